@@ -327,7 +327,23 @@ func (p *parser) group() *Node {
 		closeP()
 		restore()
 		return &Node{K: Atomic, Kids: []*Node{body}}
-	case p.looking("<"), p.looking("'"):
+	case p.looking("P=") && p.opts&FR != 0:
+		// RE2 / Python style back-reference (?P=name)
+		p.pos += 2
+		st := p.pos
+		for p.more() && p.peek() != ')' {
+			p.pos++
+		}
+		name := string(p.s[st:p.pos])
+		closeP()
+		restore()
+		n := &Node{K: Backref, Name: name, F: p.opts}
+		p.brefs = append(p.brefs, n)
+		return n
+	case p.looking("<"), p.looking("'"), p.looking("P<") && p.opts&FR != 0:
+		if p.peek() == 'P' {
+			p.pos++ // (?P<name>...) is (?<name>...) in RE2 mode
+		}
 		term := '>'
 		if p.next() == '\'' {
 			term = '\''
